@@ -28,6 +28,14 @@ const termBound = 10 * time.Second
 // answers "already started" consistently with whether the handler has been called, after which
 // the transaction stream ends (as the node closes its reader), or after which the handler is never
 // called.
+//
+// The transaction channel has ONE owner, the goroutine that plays the node's reader (the test's
+// main goroutine in the schedule leg, the per-request goroutine of the scripted requestor in the
+// manager leg): only the owner sends on it and closes it. A cancel, which arrives on another
+// goroutine, only raises the stop signal; the owner ends the stream when it sees the signal (in
+// send, or at its next step). Closing from the cancelling goroutine while the owner is sending is
+// a data race (reported by the race detector on a loaded machine), and it is not what the node
+// does either: its reader goroutine closes the channel it writes to.
 type fakeNode struct {
 	mu        sync.Mutex
 	id        uuid.UUID
@@ -35,8 +43,14 @@ type fakeNode struct {
 	cancelled bool // CancelBlockRequest was called
 	txCh      chan *wire.MsgTx
 	closed    bool
+	stop      chan struct{} // closed by a cancel after the download started
+	stopped   bool
 	cancels   int
 	latency   time.Duration // time the node takes to answer a cancel (it takes its lock there)
+}
+
+func newFakeNode(latency time.Duration) *fakeNode {
+	return &fakeNode{id: uuid.New(), txCh: make(chan *wire.MsgTx), stop: make(chan struct{}), latency: latency}
 }
 
 func (f *fakeNode) ID() uuid.UUID { return f.id }
@@ -50,23 +64,30 @@ func (f *fakeNode) CancelBlockRequest(ctx context.Context, hash bitcoin.Hash32) 
 	f.cancels++
 	f.cancelled = true
 	if f.started {
-		f.closeStreamLocked() // the node closes the reader: the tx stream ends
+		if !f.stopped { // the node's reader will close the stream
+			f.stopped = true
+			close(f.stop)
+		}
 		return true
 	}
 	return false
 }
 
-// send hands one transaction to the handler; the stream may be closed concurrently by a cancel
-// coming from the downloader's own Run goroutine (interrupt), which makes the send panic.
-func (f *fakeNode) send(tx *wire.MsgTx, handlerDone <-chan struct{}) (res string) {
-	defer func() {
-		if recover() != nil {
-			res = "closed"
-		}
-	}()
+// send (owner only) hands one transaction to the handler. When a cancel raised the stop signal the
+// owner ends the stream instead.
+func (f *fakeNode) send(tx *wire.MsgTx, handlerDone <-chan struct{}) string {
+	f.mu.Lock()
+	closed := f.closed
+	f.mu.Unlock()
+	if closed {
+		return "closed"
+	}
 	select {
 	case f.txCh <- tx:
 		return "taken"
+	case <-f.stop:
+		f.endStream()
+		return "closed"
 	case <-handlerDone: // handler already returned (wrong block / cancelled)
 		return "returned"
 	case <-time.After(termBound):
@@ -74,10 +95,51 @@ func (f *fakeNode) send(tx *wire.MsgTx, handlerDone <-chan struct{}) (res string
 	}
 }
 
-func (f *fakeNode) closeStreamLocked() {
+// endStream (owner only) closes the transaction channel once.
+func (f *fakeNode) endStream() {
+	f.mu.Lock()
+	defer f.mu.Unlock()
 	if !f.closed {
 		f.closed = true
 		close(f.txCh)
+	}
+}
+
+// endStreamWhenDone (owner only) ends the stream and waits for the handler; the stream is ended
+// right away, so a stop signal arriving meanwhile needs nothing more.
+func (f *fakeNode) endStreamAndWait(done <-chan struct{}) {
+	f.endStream()
+	<-done
+}
+
+// honourStop (owner only): the node's reader ends the stream once a cancel asked for it.
+func (f *fakeNode) honourStop() {
+	select {
+	case <-f.stop:
+		f.endStream()
+	default:
+	}
+}
+
+// waitReturnOwner waits for done like waitReturn while the owner keeps honouring a stop signal
+// that another goroutine (Run's own cancel on interrupt) may raise meanwhile.
+func waitReturnOwner(done <-chan struct{}, f *fakeNode) bool {
+	deadline := time.After(termBound)
+	for {
+		select {
+		case <-done:
+			return true
+		case <-f.stop:
+			f.endStream()
+			select {
+			case <-done:
+				return true
+			case <-deadline:
+				return false
+			}
+		case <-deadline:
+			return false
+		}
 	}
 }
 
@@ -132,7 +194,7 @@ func TestProp_C16_downloader(t *testing.T) {
 			log.FailAt = rapid.IntRange(1, n).Draw(t, "failAt")
 		}
 		bd := bitcoin_reader.NewBlockDownloader(spy.Processor{L: log}, spy.BlockTxs{L: log}, bitcoin.Hash32(requested), 100)
-		node := &fakeNode{id: uuid.New(), txCh: make(chan *wire.MsgTx)}
+		node := newFakeNode(0)
 		bd.SetCanceller(node.id, node)
 
 		// the schedule: handler events in order, control events inserted anywhere
@@ -196,12 +258,10 @@ func TestProp_C16_downloader(t *testing.T) {
 					t.Fatalf("handler neither takes transaction %d nor returns (%v)", i, events)
 				}
 			case ev == "eos":
-				node.mu.Lock()
-				node.closeStreamLocked()
-				node.mu.Unlock()
+				node.endStream()
 				if handlerStarted && waitHandler {
 					// sync point: the handler finished its verification and returned
-					if !waitReturn(handlerDone) {
+					if !waitReturnOwner(handlerDone, node) {
 						t.Fatalf("HandleBlock did not return after the end of the stream (%v)", events)
 					}
 					handlerReturned = true
@@ -222,17 +282,19 @@ func TestProp_C16_downloader(t *testing.T) {
 					t.Fatalf("Stop did not return (%v)", events)
 				}
 				node.mu.Lock()
-				if node.started {
-					node.closeStreamLocked()
-				}
+				started := node.started
 				node.cancelled = true // a dropped node never calls the handler later
 				node.mu.Unlock()
+				if started {
+					node.endStream()
+				}
 			case ev == "interrupt":
 				if !interrupted {
 					interrupted = true
 					close(interrupt)
 				}
 			}
+			node.honourStop()
 			if ev == "cancel" || ev == "cancel2" || ev == "stop" || ev == "interrupt" {
 				if idx > 0 && idx < len(events)-1 && handlerStarted {
 					node.mu.Lock()
@@ -254,10 +316,10 @@ func TestProp_C16_downloader(t *testing.T) {
 				t.Fatalf("final Cancel did not return (%v)", events)
 			}
 		}
-		if !waitReturn(runDone) {
+		if !waitReturnOwner(runDone, node) {
 			t.Fatalf("BlockDownloader.Run did not return within %s (%v); parked: %v", termBound, events, firstLines(parkedIn("block_downloader.go")))
 		}
-		if handlerStarted && !waitReturn(handlerDone) {
+		if handlerStarted && !waitReturnOwner(handlerDone, node) {
 			t.Fatalf("HandleBlock did not return (%v)", events)
 		}
 		time.Sleep(200 * time.Microsecond)
